@@ -10,8 +10,9 @@ def classify(case_line):
 CFG = dict(
     imports=["From Verif.Common Require Import Packet PolicyRef Ipt.", "From Verif.C08 Require Import Model Spec."],
     checker="check_case",
-    n=dict(quick=480, thorough=12000),
+    n=dict(quick=480, thorough=6000),
     shard=60,
+    deps=["Common"],
     rule="structured proto.Rules (protocol by name/number, 0-4 CIDRs per field with rare other-family and catch-all entries, "
          "0-40 port ranges per field, 0-3 named-port sets, IP sets, IP+port sets, ICMP type/code, all negations, every action, "
          "explicit/implicit/contradicting ip_version) x {iptables,nftables} x 3 mark layouts x flow-logs/untracked/REJECT/log-limit; "
